@@ -248,6 +248,12 @@ theorem C16_reject_restart_example :
       c.1.due = 0 ∧ traceOk false c.1.log = true := by
   decide
 
+/-- **Panicking task functions.**  On the regenerated skeletons the driver's answer to `taskpanic` is `died`: nothing
+between `workerFunc` and the top of the worker goroutine can recover, so a panicking task ends the process (and with
+it every obligation of the pool).  The harness runs such a task in a process of its own and must see the same; on a tree
+that recovers instead, the harness demands that the task is accounted for (counter back to zero, shutdown terminates). -/
+theorem C16_task_panic_example : taskPanicOutcome = "died" := by decide
+
 theorem C16_sched_haswork_example : scHasWork.sched = scHasWorkSched := by decide
 theorem C16_sched_foreign_example : scForeign.sched = scForeignSched := by decide
 theorem C16_sched_window_example : scWindow.sched = scWindowSched := by decide
